@@ -67,7 +67,7 @@ CLAIMS = {
          "Lean 4 theorem + differential correspondence against independently built values"),
  "C20": ("Theorems union_generated_iff_unsafe, union_eq_bytewise, union_hash_injective / union_hash_shape (length prefix + the bytes as one "
          "slice), union_debug_named / union_debug_bare, union_clone_bitwise, union_default_designated. Tie: real macro + rustc over unions "
-         "of every size class initialised from byte patterns: == on all pairs, recorded hasher writes, {:?}/{:#?}.",
+         "of every size class initialised from byte patterns: == on all pairs, recorded hasher writes, {:?}/{:#?}. End to end (Props/E2E.lean): debug_union_end_to_end / eqLike_union_end_to_end / union_without_unsafe_refused - acceptance of a union by the Debug, PartialEq or Hash handler implies the `unsafe` marker was read from the attribute, and the emitted item is the byte-wise one; without it the handler answers unionWithoutUnsafe.",
          COMMON_NOTE + "the byte view (from_raw_parts over size_of::<Self>()) is taken as given: unions with padding are not generated because reading padding is undefined; the refusal without `unsafe` is proved on the model and tied to the code by the attribute-layer correspondence (C13).",
          "Lean 4 theorem + differential correspondence on byte patterns"),
  "C16": ("Theorems dispatch_perm and traits_membership_perm (the model's result is invariant under every reordering of the trait -> metas map: "
